@@ -215,6 +215,6 @@ SUBCHECKS = [
                   "regressed / mixed x 0..2 controls x forward/call/put x adaptive or fixed-level pricing; after "
                   "every pass: arrays = ledger row for row, N_l = ledger counts, ml, vl, means, variances, "
                   "kurtosis, cl, cost, price recomputed with numpy; non-trivial = >= 2 passes and (a level added after the first pass or a sample size at least doubled)",
-             strategy=strat, budget={"quick": 320, "thorough": 5000}, shards={"quick": 16, "thorough": 16},
+             strategy=strat, budget={"quick": 960, "thorough": 5000}, shards={"quick": 16, "thorough": 16},
              essential_labels=("adaptive", "fixed", "controls=2", "level-added-late")),
 ]
